@@ -1,0 +1,46 @@
+//go:build verif
+
+package client
+
+import (
+	"sort"
+
+	v1 "github.com/fatedier/frp/pkg/config/v1"
+)
+
+// VerifC19Tables reports what the current Control holds: the proxy wrappers by name with the
+// configuration object each holds, the visitor configurations by name, and the names of the visitors
+// that are running.  live is false when there is no Control or its connection is gone.
+func (svr *Service) VerifC19Tables() (live bool, proxies map[string]v1.ProxyConfigurer,
+	visitors map[string]v1.VisitorConfigurer, running []string,
+) {
+	svr.ctlMu.RLock()
+	ctl := svr.ctl
+	svr.ctlMu.RUnlock()
+	proxies = map[string]v1.ProxyConfigurer{}
+	visitors = map[string]v1.VisitorConfigurer{}
+	if ctl == nil {
+		return false, proxies, visitors, nil
+	}
+	select {
+	case <-ctl.Done():
+		live = false
+	default:
+		live = true
+	}
+	for name, w := range ctl.pm.VerifWrappers() {
+		proxies[name] = w.GetStatus().Cfg
+	}
+	for _, name := range ctl.vm.VerifConfigured() {
+		if c, ok := ctl.vm.VerifCfgOf(name); ok {
+			if vc, ok := c.(v1.VisitorConfigurer); ok {
+				visitors[name] = vc
+			}
+		}
+	}
+	for name := range ctl.vm.VerifVisitors() {
+		running = append(running, name)
+	}
+	sort.Strings(running)
+	return live, proxies, visitors, running
+}
